@@ -57,7 +57,9 @@ InSlice(s, leaf) == Len(s) < MaxDepth \/ (ShapeKey(s) + leaf) % NSlices = Slice
 
 SObj == Obj("p", "S", TStruct(<<Field("kind", TConst("string", VStr("s")), TRUE), Field("v", TString, FALSE)>>))
 S2Obj == Obj("p", "S2", TStruct(<<Field("kind", TConst("string", VStr("s2")), TRUE)>>))
-EObj == Obj("p", "E", TEnum(<<Member("on", VStr("on"), "string"), Member("off", VStr(""), "string")>>))
+\* the member "eon" camel-cases to "Eon": it begins with the enum's own name AND is the name of another object
+EObj == Obj("p", "E", TEnum(<<Member("on", VStr("on"), "string"), Member("off", VStr(""), "string"), Member("eon", VStr("eon"), "string")>>))
+EonObj == Obj("p", "Eon", TStruct(<<Field("v", TString, TRUE)>>))
 UObj == Obj("p", "U", TDisj(<<TRef("p", "S"), TRef("p", "S2")>>, "", <<>>))
 \* a named enum whose member names are nothing but a sign (the shortest names a sanitiser must handle)
 SgObj == Obj("p", "Sg", TEnum(<<Member("+", VStr("+"), "string"), Member("-", VStr("-"), "string"), Member("x", VStr("x"), "string")>>))
@@ -78,7 +80,7 @@ CaseIR(shape, leaf, pos) ==
                 [] pos = "object"   -> Obj("p", "Root", t)
       \* a second package holding the SAME type under test (objects generated from it must exist in BOTH packages)
       mirror == Obj("q", "Mirror", TStruct(<<Field("m", t, TRUE)>>))
-  IN <<SchemaOf("p", <<root, SObj, S2Obj, EObj, UObj, A1Obj, A2Obj, SgObj>>), SchemaOf("q", <<mirror>>)>>
+  IN <<SchemaOf("p", <<root, SObj, S2Obj, EObj, UObj, A1Obj, A2Obj, SgObj, EonObj>>), SchemaOf("q", <<mirror>>)>>
 
 Cases == {[shape |-> s, leaf |-> l, pos |-> ps] :
             s \in {x \in Shapes(MaxDepth) : TRUE}, l \in DOMAIN Leaves, ps \in Positions}
